@@ -90,10 +90,14 @@ fn unchanged_by_non_admin(
 ) {
     let sfx = if frozen { "after_admin_cleared" } else { "by_non_admin" };
     if pre.admin != post.admin {
-        out.push(Violation::new(&format!("C14.admin_changed_{sfx}"), format!("{what}: admin {:?} -> {:?}", pre.admin, post.admin)));
+        out.push(Violation::new(&format!("C14.admin_changed_{sfx}"), format!("{what}: admin {:?} -> {:?}", pre.admin.as_deref().map(pretty), post.admin.as_deref().map(pretty))));
     }
     if pre.hooks != post.hooks {
-        out.push(Violation::new(&format!("C14.hooks_changed_{sfx}"), format!("{what}: hooks {:?} -> {:?}", pre.hooks, post.hooks)));
+        out.push(Violation::new(&format!("C14.hooks_changed_{sfx}"), format!(
+                "{what}: hooks {:?} -> {:?}",
+                pre.hooks.iter().map(|h| pretty(h)).collect::<Vec<_>>(),
+                post.hooks.iter().map(|h| pretty(h)).collect::<Vec<_>>()
+            )));
     }
     if with_members && pre.members != post.members {
         out.push(Violation::new(
